@@ -92,7 +92,8 @@ def cases(rng, tier):
         ops += [("O",), ("HIDE", rng.below(2), 0), ("C",), ("UNHIDE",), ("O",)]
         if rng.chance(1, 2):
             ops += [("C",), ("O",)]
-        ops += [("R",), ("O",)]
+        # no restart here: the failed round can leave its partly written output directory behind, and a restart
+        # would list it as live (the known leftover-directory findings of C01/C11, not what this scenario is about)
         out.append(shardprop.mk_case("compact-read-fault", cfg, ntypes, nctx, ops))
     return out
 
